@@ -99,6 +99,12 @@ pub trait Monitor: Sync {
     fn cases(&self, tier: Tier) -> u64;
     /// Generate, execute and check one case.
     fn run_case(&self, case_index: u64, case_seed: u64, tier: Tier, rep: &mut CaseReport);
+    /// A library panic / exhausted loop budget reached OUTSIDE a guarded call ended the case. Monitors
+    /// whose property forbids such a failure report a violation here and return true; the default is
+    /// to count the abandoned case (the failure itself is C20's to decide).
+    fn unguarded_library_failure(&self, _c: &Caught, _rep: &mut CaseReport) -> bool {
+        false
+    }
     /// Counters that must be non-zero for the run to count as having observed
     /// anything (otherwise the verdict is inconclusive).
     fn required_counters(&self) -> Vec<&'static str> {
@@ -194,11 +200,38 @@ pub const DEFAULT_FUEL: u64 = 600_000;
 /// Run library code with panics captured and the loop budget armed.
 pub static MAX_TICKS_PER_CALL: AtomicU64 = AtomicU64::new(0);
 
+thread_local! {
+    /// Loop budget of the current case for library code that runs OUTSIDE a guarded call (model
+    /// construction, reference evaluators that query library models): (budget left, tick count when armed).
+    static OUTER_FUEL: std::cell::Cell<Option<(u64, u64)>> = const { std::cell::Cell::new(None) };
+}
+
+/// Budget for all unguarded library work of one case (see `OUTER_FUEL`).
+pub const CASE_FUEL: u64 = 6_000_000;
+
+fn arm_outer(fuel: Option<u64>) {
+    match fuel {
+        Some(n) => {
+            OUTER_FUEL.with(|o| o.set(Some((n, hooks::ticks()))));
+            hooks::set_fuel(Some(n));
+        }
+        None => {
+            OUTER_FUEL.with(|o| o.set(None));
+            hooks::set_fuel(None);
+        }
+    }
+}
+
 pub fn guard_fuel<T>(fuel: u64, f: impl FnOnce() -> T) -> Result<T, Caught> {
     let before = hooks::ticks();
+    // what is left of the case's outer budget (ticks inside guarded calls do not count against it)
+    let outer_left = OUTER_FUEL.with(|o| o.get()).map(|(left, mark)| left.saturating_sub(before.wrapping_sub(mark)));
     hooks::set_fuel(Some(fuel));
     let r = catch_unwind(AssertUnwindSafe(f));
-    hooks::set_fuel(None);
+    match outer_left {
+        Some(left) => arm_outer(Some(left)),
+        None => hooks::set_fuel(None),
+    }
     let used = hooks::ticks().wrapping_sub(before);
     if r.is_ok() {
         MAX_TICKS_PER_CALL.fetch_max(used, Ordering::Relaxed);
@@ -271,16 +304,29 @@ struct Merged {
 
 pub fn run_one_case(mon: &dyn Monitor, case_index: u64, case_seed: u64, tier: Tier) -> CaseReport {
     let mut rep = CaseReport::default();
+    arm_outer(Some(CASE_FUEL));
     let r = catch_unwind(AssertUnwindSafe(|| mon.run_case(case_index, case_seed, tier, &mut rep)));
-    hooks::set_fuel(None);
+    arm_outer(None);
     hooks::set_search_observer(None);
     hooks::set_item_observer(None);
     if let Err(p) = r {
         let c = caught_from(p);
-        rep.inconclusive = Some(format!(
-            "harness panic (not a library event): {} at {}",
-            c.message, c.location
-        ));
+        if c.kind == "fuel" {
+            // a library loop that never ends, reached outside a guarded call (e.g. while a model is
+            // being constructed): the case is abandoned; termination itself is C20's claim
+            if !mon.unguarded_library_failure(&c, &mut rep) {
+                rep.count("cases_abandoned:library_loop_budget_exhausted_outside_a_guarded_call (decided by C20)", 1);
+            }
+        } else if c.location.starts_with("/repo/src/") {
+            if !mon.unguarded_library_failure(&c, &mut rep) {
+                rep.count("cases_abandoned:library_panic_outside_a_guarded_call (decided by C20)", 1);
+            }
+        } else {
+            rep.inconclusive = Some(format!(
+                "harness panic (not a library event): {} at {}",
+                c.message, c.location
+            ));
+        }
     }
     rep
 }
